@@ -242,14 +242,14 @@ class InteractingNetworks(Network):
             print("Setting number of cross links according to chosen \
                   link density.")
         elif cross_link_density is None and number_cross_links is None:
-            number_cross_links = int(sum(cross_A.values()))
+            number_cross_links = int(cross_A.sum())
             print("Creating a null model for the given interacting networks.")
         #  else: take the explicitly chosen number of cross links
 
         if number_cross_links > (N1 * N2):
             print("The number of cross links exceeds maximum.")
             print("Setting link density of initial interacting network.")
-            number_cross_links = int(sum(cross_A.values()))
+            number_cross_links = int(cross_A.sum())
 
         #  retrieve adjacency matrix of the full interacting network
         A_new = network.sp_A.astype(int)
